@@ -414,6 +414,18 @@ func c16(x *mon.Ctx) {
 					po.TdQuoteBodyOptions.AnyMrTd = append(po.TdQuoteBodyOptions.AnyMrTd, []byte{})
 					po.TdQuoteBodyOptions.MrOwner = []byte{}
 				}
+				if form == "wire" || form == "built-sizes-unset" { // for two of the four forms: an allow-list that does NOT contain the quote's MR_TD, its entries in
+					// descending order (the failing comparison reads the caller's list; it does not tidy it)
+					var l [][]byte
+					for k := 0; k < 5; k++ {
+						e := make([]byte, 48, 48+32)
+						for i := range e {
+							e[i] = byte(0xF0 - 40*k + i)
+						}
+						l = append(l, e)
+					}
+					po.TdQuoteBodyOptions.AnyMrTd = l
+				}
 				keepPo := deepCopyOptions(po)
 				keep := proto.Clone(m)
 				regs := snapshot(map[string]any{"message": m, "raw": raw, "policy": po})
